@@ -341,7 +341,7 @@ func (s *Sorter) SortedBlocks(ctx context.Context, removedCols map[int]struct{},
 				s.current = s.current[1:]
 				currentBlock = nil
 			}
-			if len(blkPK) == 0 {
+			if pkOK && len(blk) == 1 {
 				blkPK = blkPK[:len(pkIndices)]
 				copy(blkPK, rowPK)
 			}
